@@ -486,6 +486,18 @@ const TEXT_FORMS: &[(&str, &str)] = &[
     ("array-ref-param", "def f(readonly array[int[8], 4] a) { }"),
     ("array-ref-param", "def f(mutable array[int[8], #dim = 2] a) { }"),
     ("array-ref-param", "def f(readonly array[float[64], 2, 3] a, int n) -> int { return n; }"),
+    ("array-dimensions", "array[int[8], 2, 2] a;"),
+    ("array-dimensions", "array[int[8], 2, 2, 2, 2, 2] a;"),
+    ("array-dimensions", "array[int[8], 2, 2, 2, 2, 2, 2] a;"),
+    ("array-dimensions", "array[int[8], 2, 2, 2, 2, 2, 2, 2] a;"),
+    ("array-dimensions", "def f(readonly array[int[8], 2, 2, 2, 2, 2, 2, 2] a) { }"),
+    ("range-ending-in-zero", "for int i in [7:-1:0] { }"),
+    ("range-ending-in-zero", "for int i in [-3:0] { }"),
+    ("range-ending-in-zero", "qubit[4] q; let r = q[3:0];"),
+    ("range-ending-in-zero", "bit[4] c; bit[2] d = c[1:0];"),
+    ("range-ending-in-zero", "bit[4] c; bit[4] d = c[3:-1:0];"),
+    ("range-ending-in-zero", "bit[4] c; bit[1] d = c[0:0];"),
+    ("range-starting-at-zero", "bit[4] c; bit[2] d = c[0:2:3];"),
     ("delay-without-operands", "delay[10ns];"),
     ("delay-without-operands", "duration d = 1ns; delay[d];"),
     ("delay-without-operands", "gate g q { delay[2dt]; }"),
